@@ -95,9 +95,13 @@ func eciesCase(x *hx.Ctx, l int) {
 	}
 	pl := s.PointLen()
 	x.Require("ciphertext length = point + message + 16-byte tag", len(ct) == pl+l+16, len(ct))
+	ctBefore := append([]byte{}, ct...)
 	pt, err := ecies.Decrypt(s, priv, ct, nil)
 	x.NoErr("Decrypt", err)
 	x.Require("round trip", bytes.Equal(pt, msg))
+	x.Require("Decrypt leaves the caller's ciphertext unchanged", bytes.Equal(ct, ctBefore))
+	pt2, err := ecies.Decrypt(s, priv, ct, nil)
+	x.Require("a second Decrypt of the same buffer gives the same plaintext", err == nil && bytes.Equal(pt2, msg))
 	pt, err = ecies.Decrypt(s, priv, ct, sha256.New)
 	x.Require("nil hash means sha256", err == nil && bytes.Equal(pt, msg))
 	x.Require("no plaintext block in the clear", noBlockInClear(ct, msg))
